@@ -107,7 +107,7 @@ func (e *storEnv) guard(what string, f func() error) error {
 			e.violation(p, what+" did not return within 20 s (hang)")
 		}
 		e.w.Close()
-		e.st.TraceFiles = nil // the trace ends mid-operation: nothing to replay
+		e.st.TraceFiles = []string{} // the trace ends mid-operation: nothing to replay
 		e.st.Emit()
 		os.Exit(0)
 		return nil
